@@ -1749,7 +1749,7 @@ class Gen:
             yield from self.tx_build()
             return
         s = rng.choice(c)
-        yield dict(k="probe_mutant", s=s, seed=rng.randrange(2 ** 31))
+        yield dict(k="probe_mutant", s=s, seed=rng.randrange(2 ** 31), prelude=rng.random() < 0.3)
         # single-feature edit on a copy, then compare the live pair
         if self.room() and rng.random() < 0.5:
             d = self.slot_id()
